@@ -80,7 +80,7 @@ class Dynal(Base):
 
     target = f"{CORE}::dynal"
     floor = 4
-    KS = (1, 2, 3, 4)
+    KS = (1, 2, 3, 4, 5)
 
     def cases(self):
         return [NS(name=f"K={k}", K=k) for k in self.KS]
@@ -138,7 +138,7 @@ def _matching_post(ri, rf, dims, pairs):
 class GenMatchingDynal(Base):
     target = f"{CORE}::gen_matching_dynal"
     floor = 6
-    KS = (1, 2, 3)
+    KS = (1, 2, 3, 4)
 
     def cases(self):
         return [NS(name=f"K={k}", K=k) for k in self.KS]
@@ -1325,3 +1325,170 @@ def lem_heis_nofield():
     cyc, fld = z3.Bools("cyclic field")
     inr, isf, _, _ = _heis(n, cyc, fld)
     return [n >= 2, Not(fld), inr(i)], Not(isf(i))
+
+
+# ---- the aliases sharing ham_heis: which couplings / fields they pass on
+
+
+class _HeisAlias(Base):
+    floor = 1
+    expect = None  # callable(a) -> (j, b)
+
+    def call(self, cx, name, args, kwargs, node):
+        if name == "ham_heis":
+            return ("ham_heis", tuple(args), dict(kwargs))
+        return super().call(cx, name, args, kwargs, node)
+
+    def ensures(self, a, r, cx, case):
+        d = {"calls-ham_heis(n, j=, b=, **ham_opts)": isinstance(r, tuple) and r[0] == "ham_heis" and len(r[1]) == 1
+             and set(r[2]) == {"j", "b", "opt"} and r[2]["opt"] is a.ham_opts["opt"]}
+        if d["calls-ham_heis(n, j=, b=, **ham_opts)"]:
+            j, b = self.expect(a)
+            eqv = lambda x, y: And(*[zeq(p, q) for p, q in zip(x, y)]) if isinstance(x, tuple) and isinstance(y, tuple) \
+                and len(x) == len(y) else (zeq(x, y) if not isinstance(x, tuple) and not isinstance(y, tuple) else False)
+            d["n"] = zeq(r[1][0], a.n)
+            d["couplings"] = eqv(r[2]["j"], j)
+            d["field"] = eqv(r[2]["b"], b)
+        return d
+
+
+@register
+class HamIsing(_HeisAlias):
+    target = f"{OPS}::ham_ising"
+    expect = staticmethod(lambda a: ((0, 0, a.jz), (a.bx, 0, 0)))
+
+    def inputs(self, cx, case):
+        return dict(n=cx.Int("n"), jz=cx.Real("jz"), bx=cx.Real("bx"), ham_opts={"opt": cx.Opaque("opt")})
+
+
+@register
+class HamXY(_HeisAlias):
+    target = f"{OPS}::ham_XY"
+    expect = staticmethod(lambda a: ((a.jxy, a.jxy, 0), (0, 0, a.bz)))
+
+    def inputs(self, cx, case):
+        return dict(n=cx.Int("n"), jxy=cx.Real("jxy"), bz=cx.Real("bz"), ham_opts={"opt": cx.Opaque("opt")})
+
+
+@register
+class HamXXZ(_HeisAlias):
+    target = f"{OPS}::ham_XXZ"
+    expect = staticmethod(lambda a: ((a.jxy, a.jxy, a.delta), 0))
+
+    def inputs(self, cx, case):
+        return dict(n=cx.Int("n"), delta=cx.Real("delta"), jxy=cx.Real("jxy"), ham_opts={"opt": cx.Opaque("opt")})
+
+
+# =====================================================================================================================
+# fdx provider: the abstract model of the trusted leaves, checked against the REAL code on a complete finite grid
+# (exhaustive over the stated finite grid -- NOT a proof for larger values)
+# =====================================================================================================================
+
+
+def provider_leaf_model(tier):
+    """(1) rows of quimb.core._kron_core of row-sliced factors == rows fullrow(s) of the numpy Kronecker product, for every
+    list of K <= 3 factors with 1..Dmax rows and every non-empty row window of every factor, dense and csr;
+    (2) python / numpy / scipy row slicing [lo:hi] == py_slice_bounds, every length R <= 6 and every lo, hi in [-R-2, R+2] + None;
+    (3) the real gen_ops_maybe_sliced on real dense / csr / coo matrices returns the row windows [d1, d2+1) in the same format."""
+    import time as _t
+    import numpy as np
+    import scipy.sparse as sp
+    from vf.framework import ObResult
+    import quimb.core as qc
+
+    out = []
+    dmax = 4 if tier == "thorough" else 3
+    primes = [2, 3, 5, 7, 11, 13, 17, 19, 23, 29, 31, 37, 41, 43, 47, 53]
+
+    def factors(dims):
+        fs, k = [], 0
+        for n in dims:
+            fs.append(np.array([[1.0, float(primes[k + r])] for r in range(n)]))
+            k += n
+        return fs
+
+    def digits(s, w):
+        t = []
+        for i in range(len(w)):
+            c = int(np.prod(w[i + 1:], dtype=int)) if i + 1 < len(w) else 1
+            t.append(s // c)
+            s -= (s // c) * c
+        return t
+
+    # ---- (1)
+    for fmt in ("dense", "csr"):
+        t0, n, bad = _t.time(), 0, None
+        for K in (1, 2, 3):
+            for dims in itertools.product(range(1, dmax + 1), repeat=K):
+                fs = factors(dims)
+                full = fs[0]
+                for f in fs[1:]:
+                    full = np.kron(full, f)
+                B = [int(np.prod(dims[i + 1:], dtype=int)) for i in range(K)]
+                wins = [[(lo, hi) for lo in range(n_) for hi in range(lo + 1, n_ + 1)] for n_ in dims]
+                for win in itertools.product(*wins):
+                    sl = [f[lo:hi, :] for f, (lo, hi) in zip(fs, win)]
+                    if fmt == "csr":
+                        sl = [sp.csr_matrix(x) for x in sl]
+                    X = qc._kron_core(*sl)
+                    X = X.toarray() if sp.issparse(X) else np.asarray(X)
+                    w = [hi - lo for lo, hi in win]
+                    n += 1
+                    ok = X.shape[0] == int(np.prod(w))
+                    for s in range(X.shape[0]):
+                        if not ok:
+                            break
+                        t = digits(s, w)
+                        r = sum((lo + ti) * b for (lo, _), ti, b in zip(win, t, B))
+                        ok = 0 <= r < full.shape[0] and bool(np.array_equal(X[s], full[r]))
+                    if not ok and bad is None:
+                        bad = dict(dims=list(dims), windows=[list(x) for x in win], format=fmt)
+        out.append(ObResult(f"{CORE}::_kron_core::leaf-model:rows-of-product-of-windows[{fmt}]", "fdx",
+                            "failed" if bad else "discharged", "exhaustive", _t.time() - t0, function=f"{CORE}::_kron_core",
+                            model=bad, detail=f"exhaustive over the stated finite grid: K<=3, 1..{dmax} rows per factor, "
+                                              f"every non-empty row window; {n} products", engine="fdx"))
+    # ---- (2)
+    t0, n, bad = _t.time(), 0, None
+    for R in range(0, 7):
+        M = np.arange(2 * R).reshape(R, 2)
+        S = sp.csr_matrix(M + 1) if R else None
+        for lo in [None] + list(range(-R - 2, R + 3)):
+            for hi in [None] + list(range(-R - 2, R + 3)):
+                a, b = py_slice_bounds(lo, hi, R)
+                exp = list(range(a, b))
+                n += 1
+                got = [list(range(R))[lo:hi], [int(x) // 2 for x in M[lo:hi, 0]]]
+                if S is not None:
+                    got.append([int(x - 1) // 2 for x in S[lo:hi, :].toarray()[:, 0]])
+                if any(g != exp for g in got) and bad is None:
+                    bad = dict(R=R, lo=lo, hi=hi, model=exp, observed=got)
+    out.append(ObResult("python/numpy/scipy::row-slice::leaf-model:py_slice_bounds", "fdx", "failed" if bad else "discharged",
+                        "exhaustive", _t.time() - t0, function=f"{CORE}::kron", model=bad,
+                        detail=f"exhaustive over the stated finite grid: R<=6, bounds in [-R-2, R+2] or None; {n} slices",
+                        engine="fdx"))
+    # ---- (3)
+    t0, n, bad = _t.time(), 0, None
+    conv = {"dense": lambda x: x, "csr": sp.csr_matrix, "coo": sp.coo_matrix}
+    for K in (1, 2, 3):
+        for dims in itertools.product(range(1, dmax + 1), repeat=K):
+            fs = factors(dims)
+            for L in range(0, K + 1):
+                pairs = [[(p, q) for p in range(n_) for q in range(p, n_)] for n_ in dims[:L]]
+                for ix in itertools.product(*pairs):
+                    for fmt in ("dense", "csr", "coo"):
+                        ops = [conv[fmt](f) for f in fs]
+                        res = list(qc.gen_ops_maybe_sliced(ops, ix))
+                        n += 1
+                        ok = len(res) == K
+                        for i, (r, f) in enumerate(zip(res, fs)):
+                            exp = f[ix[i][0]:ix[i][1] + 1, :] if i < L else f
+                            rf = ("dense" if not sp.issparse(r) else r.format)
+                            ok = ok and rf == fmt and np.array_equal(r.toarray() if sp.issparse(r) else np.asarray(r), exp)
+                        if not ok and bad is None:
+                            bad = dict(dims=list(dims), ix=[list(x) for x in ix], format=fmt)
+    out.append(ObResult(f"{CORE}::gen_ops_maybe_sliced::leaf-model:row-windows-on-real-matrices", "fdx",
+                        "failed" if bad else "discharged", "exhaustive", _t.time() - t0,
+                        function=f"{CORE}::gen_ops_maybe_sliced", model=bad,
+                        detail=f"exhaustive over the stated finite grid: K<=3, 1..{dmax} rows, every valid ix prefix, "
+                               f"dense/csr/coo; {n} calls", engine="fdx"))
+    return out
